@@ -231,7 +231,9 @@ func runC16(c *Check) {
 		} else {
 			// list passed = appended list
 			lst := ArgTerm(rpc[0], 1)
-			if strings.Contains(lst.String(), "append(") && strings.Contains(lst.String(), "make(") {
+			isApp := func(t *Term) bool { return t.IsCall("append") || (t.Op == "call" && t.Name == "append") }
+			if (strings.Contains(lst.String(), "append(") && strings.Contains(lst.String(), "make(")) ||
+				(dp.DeepContains(lst, isApp, 2) && dp.DeepContains(lst, func(t *Term) bool { return t.Op == "make" }, 2)) {
 				c.OK("C16-R3", "SubmitWithOptions ⟂ rpc-gets-filtered-list", fn, dp.InstrPos(rpc[0].In), "the RPC receives the list built by the filter loop", true)
 			} else {
 				c.Bad("C16-R3", "SubmitWithOptions ⟂ rpc-gets-filtered-list", fn, dp.InstrPos(rpc[0].In), "the RPC is not given the filtered list: "+trunc(lst.String(), 120), nil)
@@ -247,10 +249,26 @@ func runC16(c *Check) {
 				c.Bad("C16-R3", "SubmitWithOptions ⟂ in-order-append", fn, dp.InstrPos(apps[0].In), "the appended blob is not the ranged input element", nil)
 			}
 			// append only if it fits: size test false edge necessary; after the true edge no more appends (leaves the loop)
-			full := g.Select(EdgeWhere(func(t *Term, pol bool, n *Node) bool {
-				t, pol = normFact(t, pol)
-				return pol && t.Op == "bin" && t.Name == ">" && t.Args[0].Op == "bin" && t.Args[0].Name == "+" && strings.HasSuffix(t.Args[1].String(), ".MaxBlobSize")
-			}))
+			isLimit := func(t *Term) bool { return strings.HasSuffix(t.unconv().String(), ".MaxBlobSize") }
+			// the running size plus this blob is above the limit: limit < cur+len, or limit-cur < len
+			misfit := func(t *Term, pol bool) bool {
+				a, op, b, ok := canonCmp(t, pol)
+				if !ok || op != "<" {
+					return false
+				}
+				a, b = a.unconv(), b.unconv()
+				return (isLimit(a) && b.Op == "bin" && b.Name == "+") || (a.Op == "bin" && a.Name == "-" && isLimit(a.Args[0]) && !isLimit(b))
+			}
+			// … and its complement: cur+len <= limit, or len <= limit-cur
+			fitsFact := func(t *Term, pol bool) bool {
+				a, op, b, ok := canonCmp(t, pol)
+				if !ok || op != "<=" {
+					return false
+				}
+				a, b = a.unconv(), b.unconv()
+				return (isLimit(b) && a.Op == "bin" && a.Name == "+") || (b.Op == "bin" && b.Name == "-" && isLimit(b.Args[0]) && !isLimit(a))
+			}
+			full := g.Select(EdgeWhere(func(t *Term, pol bool, n *Node) bool { return misfit(t, pol) }))
 			if len(full) == 0 {
 				c.Bad("C16-R3", "SubmitWithOptions ⟂ stop-at-first-misfit", fn, "", "no cumulative size test currentSize+len(blob) > MaxBlobSize", nil)
 			} else {
@@ -259,7 +277,7 @@ func runC16(c *Check) {
 				facts := g.NecessaryEdges(nodeSet(apps))
 				fits := false
 				for _, f := range facts {
-					if !f.Pol && f.Cond.Op == "bin" && f.Cond.Name == ">" && f.Cond.Args[0].Op == "bin" && f.Cond.Args[0].Name == "+" {
+					if fitsFact(f.Cond, f.Pol) {
 						fits = true
 					}
 				}
@@ -271,8 +289,8 @@ func runC16(c *Check) {
 			}
 			// a skipped oversize blob forces the error return before the RPC (flag-aware)
 			skipEdges := g.Select(EdgeWhere(func(t *Term, pol bool, n *Node) bool {
-				t, pol = normFact(t, pol)
-				return pol && t.Op == "bin" && t.Name == ">" && strings.HasPrefix(t.Args[0].unconv().String(), "len(") && strings.HasSuffix(t.Args[1].String(), ".MaxBlobSize")
+				a, op, b, ok := canonCmp(t, pol) // limit < len(blob)
+				return ok && op == "<" && strings.HasPrefix(b.unconv().String(), "len(") && isLimit(a)
 			}))
 			if len(skipEdges) == 0 {
 				c.OK("C16-R3", "SubmitWithOptions ⟂ no-blob-is-skipped", fn, dp.Pos(swo.Pos()), "no individual blob is skipped", true)
@@ -312,6 +330,28 @@ func runC16(c *Check) {
 							}
 							if v == ssa.Value(cphi) || v == ssa.Value(counter) {
 								return true
+							}
+							// the count handed back by the helper that filters the blobs
+							if ex, ok := v.(*ssa.Extract); ok {
+								if call, ok := ex.Tuple.(*ssa.Call); ok {
+									if cal := call.Common().StaticCallee(); cal != nil && counter.Parent() == cal {
+										for _, bb := range cal.Blocks {
+											if ret, ok := bb.Instrs[len(bb.Instrs)-1].(*ssa.Return); ok && ex.Index < len(ret.Results) {
+												rv := spilledResult(ret, ex.Index)
+												if rv == ssa.Value(cphi) || rv == ssa.Value(counter) {
+													return true
+												}
+												if ph, ok := rv.(*ssa.Phi); ok {
+													for _, e := range ph.Edges {
+														if e == ssa.Value(counter) || e == ssa.Value(cphi) {
+															return true
+														}
+													}
+												}
+											}
+										}
+									}
+								}
 							}
 							if ph, ok := v.(*ssa.Phi); ok {
 								for _, e := range ph.Edges {
